@@ -110,6 +110,28 @@ class PriceFeature(Feature):
         return self.last
 
 
+class PingOnly(Feature):
+    """A second observer, subscribed to the custom event only."""
+
+    def __init__(self, log=None):
+        super().__init__(name="PingOnly", save=False)
+        self.log = log if log is not None else []
+
+    def process_Ping(self, event):
+        self.log.append(event)
+
+
+class NBBOOnly(Feature):
+    """A third observer, subscribed to quotes only."""
+
+    def __init__(self, log=None):
+        super().__init__(name="NBBOOnly", save=False)
+        self.log = log if log is not None else []
+
+    def process_EventNBBO(self, event):
+        self.log.append(event)
+
+
 class PriceState(IState):
     """A user-defined state with parse() implemented: IState saves a deep copy of every parsed
     observation into ``history`` keyed by the time of the latest update."""
@@ -131,6 +153,15 @@ class PriceState(IState):
 
     def parse(self):
         return self.last
+
+
+class _RecorderWithFeatures(Recorder):
+    """The recorder plus further observers registered through IState.features."""
+
+    def __init__(self, log=None, envbox=None, features=None):
+        self.log = log if log is not None else []
+        self.envbox = envbox if envbox is not None else []
+        IState.__init__(self, features=features, save=False)
 
 
 def t_eq(a, b):
@@ -336,6 +367,9 @@ class Episode:
             kw["reward"] = cfg["reward"]
         if cfg.get("fees"):
             kw["broker_fees"] = BrokerFees(proportional=0.001, fixed=0.01, markup=cfg.get("markup", 0.0))
+        self.ping_log, self.nbbo_log = [], []
+        if cfg.get("more_observers"):
+            self.recorder = _RecorderWithFeatures(self.log, self.envbox, [PingOnly(self.ping_log), NBBOOnly(self.nbbo_log)])
         if cfg.get("feature"):
             self.recorder = IState([PriceFeature(self.contracts[0], self.log, self.envbox)], save=False)
         if cfg.get("state_history"):
